@@ -105,7 +105,7 @@ def gen_cases(rng, n, tier):
             vals = [rng.choice([None, 1]), rng.choice([1, 2])]
             for r in rows:
                 r['dat'] = [rng.choice(vals), 0]
-        out.append(dict(cfg=cfg, rows=rows))
+        out.append(dict(cfg=cfg, rows=rows, yield_per=rng.choice([None, None, 1, 2, 3])))
     # joined-table inheritance, vacuum called with the base class: versions of a subclass entity often differ only in
     # the column of the child table
     for i in range(max(8, n // 6)):
@@ -120,7 +120,7 @@ def gen_cases(rng, n, tier):
         av, bv = [rng.choice([None, 1]), rng.choice([1, 1, 2])], [rng.choice([None, 1]), rng.choice([1, 2]), 3]
         for r in rows:
             r['dat'] = [rng.choice(av), rng.choice(bv) if _is_child(r['key']) else None]
-        out.append(dict(cfg=cfg, rows=rows))
+        out.append(dict(cfg=cfg, rows=rows, yield_per=rng.choice([None, 1, 2])))
     return out
 
 
@@ -133,22 +133,33 @@ def corpus():
     # joined hierarchy: an Article (key 1) whose versions differ only in the child table's column, and back
     jn = [dict(key=[1], tx=t, end=None, op=1, dat=[5, v]) for t, v in ((1, 1), (2, 2), (3, 1), (4, 1))] + \
          [dict(key=[2], tx=t, end=None, op=1, dat=[v, None]) for t, v in ((1, 1), (3, 1), (5, 2))]
-    return [dict(cfg=c, rows=aba), dict(cfg=cc, rows=comp), dict(cfg=JOINED[0], rows=jn)]
+    return [dict(cfg=c, rows=aba), dict(cfg=cc, rows=comp), dict(cfg=JOINED[0], rows=jn), dict(cfg=c, rows=aba, yield_per=2),
+            dict(cfg=c, rows=aba, yield_per=1)]
 
 
-def _observe(env, cfg, rows):
+def _observe(env, cfg, rows, case=None):
+    case = case or {}
     from sqlalchemy_continuum import vacuum
     joined = cfg.get('shape') == 'joined'
     load_joined(env, cfg, rows) if joined else T.load_rows(env, cfg, rows)
     txc, endc = T.colnames(cfg)
     kc = T.keycols(cfg)
-    s = env.session()
+    # an ordinary autoflush session; the window size of the scan is part of the input
+    s = env.session(autoflush=True)
     try:
-        vacuum(s, env.Article)
+        yp = case.get('yield_per')
+        vacuum(s, env.Article, **({'yield_per': yp} if yp else {}))
         V = env.version_class(env.Article)
-        deleted = sorted([[getattr(o, c) for c in kc], getattr(o, txc)] for o in s.deleted if isinstance(o, V))
+        pending = sorted([[getattr(o, c) for c in kc], getattr(o, txc)] for o in s.deleted if isinstance(o, V))
         s.commit()
         after = read_joined(env, cfg) if joined else T.read_rows(env, cfg)
+        # what vacuum deleted: with an autoflush session some deletions are flushed before vacuum returns and are no
+        # longer in session.deleted; the rows that are gone after the commit are the deleted ones (those still pending
+        # when vacuum returned are a subset)
+        left = {(tuple(r['key']), r['tx']) for r in after}
+        deleted = sorted([r['key'], r['tx']] for r in rows if (tuple(r['key']), r['tx']) not in left)
+        if any(p_ not in deleted for p_ in pending):
+            return dict(deleted=deleted, after=after, exc='session.deleted names a row that is still there: %s' % pending)
         return dict(deleted=deleted, after=after, exc=None)
     except Exception as e:
         s.rollback()
@@ -161,15 +172,15 @@ def _worker(chunk):
     cfg, items = chunk
     out = []
     with E.Env(options=T.cfg_options(cfg), build=build_joined if cfg.get('shape') == 'joined' else T.build_article(cfg)) as env:
-        for idx, rows in items:
-            out.append((idx, _observe(env, cfg, rows)))
+        for idx, rows, yp in items:
+            out.append((idx, _observe(env, cfg, rows, dict(yield_per=yp))))
     return out
 
 
 def run_impl(cases):
     groups = {}
     for i, c in enumerate(cases):
-        groups.setdefault(json.dumps(c['cfg'], sort_keys=True), []).append((i, c['rows']))
+        groups.setdefault(json.dumps(c['cfg'], sort_keys=True), []).append((i, c['rows'], c.get('yield_per')))
     chunks = []
     for k, items in groups.items():
         step = max(1, (len(items) + 1) // 2)
@@ -208,9 +219,9 @@ def features(case, obs):
 def shrink(case):
     out = []
     for rows in T.shrink_rows(case['rows']):
-        out.append(dict(cfg=case['cfg'], rows=rows))
+        out.append(dict(cfg=case['cfg'], rows=rows, yield_per=case.get('yield_per')))
     return out
 
 
 def describe(case, obs):
-    return dict(cfg=case['cfg'], version_table_rows=case['rows'], observed=obs)
+    return dict(cfg=case['cfg'], yield_per=case.get('yield_per'), version_table_rows=case['rows'], observed=obs)
